@@ -128,7 +128,7 @@ class AsgiResult(object):
         return b''.join(e.get('body', b'') for e in self.events if e.get('type') == 'http.response.body')
 
 
-def call(app, scope, events=None, fail_send_at=None, monitor=True, disconnect_when_drained=True, timeout=30):
+def call(app, scope, events=None, fail_send_at=None, monitor=True, disconnect_when_drained=True, timeout=30, fail_kind=None):
     """Run one HTTP request against an ASGI app; returns AsgiResult.
 
     `events` is the scripted list returned by receive(); when exhausted,
@@ -158,6 +158,9 @@ def call(app, scope, events=None, fail_send_at=None, monitor=True, disconnect_wh
         if fail_send_at is not None and n >= fail_send_at:
             if res.send_failed_at is None:
                 res.send_failed_at = n
+            if fail_kind == 'cancel':
+                # what a server does when the client goes away while the app awaits send(): it cancels the app's task
+                raise asyncio.CancelledError()
             raise SendError('client disconnected at send %d' % n)
         if monitor:
             check_event(res.events, event)
@@ -171,6 +174,10 @@ def call(app, scope, events=None, fail_send_at=None, monitor=True, disconnect_wh
             raise
         except asyncio.TimeoutError:
             raise HarnessError('ASGI app did not finish within %ss' % timeout)
+        except asyncio.CancelledError as e:
+            if fail_kind != 'cancel' or res.send_failed_at is None:
+                raise
+            res.error = e  # the injected cancellation came out of the app, as it must
         except Exception as e:  # noqa
             res.error = e
 
